@@ -62,3 +62,151 @@ def build_mapping(rel: str, fname: str, table: Dict[str, str]):
 
     c = Contract(fname, [("lsp_type", [("obj", "TypeDef")])], pre, spec, f"total on the metamodel's base types and equal to the mapping {table}")
     return world, interp, fi, c
+
+
+# ---------------------------------------------------------------------------------------------
+# decision helpers over type definitions with item lists (null membership, special fields, field validators)
+# ---------------------------------------------------------------------------------------------
+
+from pyvc.symex import SReturn as _SReturn, rest_quantifier, symlist_elem, symlist_len  # noqa: E402
+from pyvc import vc as _vc  # noqa: E402
+
+TESTDATA_REL = "generator/plugins/testdata/testdata_generator.py"
+
+
+def typed_world(rel: str):
+    world = new_world()
+    interp = Interp(world)
+    world.class_id("TypeDef")
+    world.class_id("Property")
+    world.classes["TypeDef"] = ClassInfo(
+        "TypeDef",
+        {"kind": FieldSpec(["str"]), "name": FieldSpec(["str"]), "value": FieldSpec(["str"]), "items": FieldSpec([("symlist", "TypeDef")])},
+        {},
+    )
+    world.classes["Property"] = ClassInfo("Property", {"name": FieldSpec(["str"]), "type": FieldSpec([("obj", "TypeDef")]), "optional": FieldSpec(["none", "bool"])}, {})
+    load_module(world, interp, os.path.join(REPO, rel), "mod", rel)
+    return world, interp
+
+
+def null_member(ctx: Ctx, interp: Interp, tdef, kinds=("or",)) -> bool:
+    """Spec: tdef is an `or` (resp. one of `kinds`) with a direct `null` member — concrete on this path (forks)."""
+    k = force(ctx, interp.getattr(ctx, tdef, "kind")).t
+    if not ctx.branch(Or(*[Eq(k, smt.sstr(x)) for x in kinds])):
+        return False
+    return items_have_null(ctx, interp, interp.getattr(ctx, tdef, "items"))
+
+
+def items_have_null(ctx: Ctx, interp: Interp, items) -> bool:
+    def q(e) -> bool:
+        ek = force(ctx, interp.getattr(ctx, e, "kind")).t
+        en = force(ctx, interp.getattr(ctx, e, "name")).t
+        return ctx.branch(And(Eq(ek, smt.sstr("base")), Eq(en, smt.sstr("null"))))
+
+    return rest_quantifier(ctx, True, symlist_len(ctx, items), lambda kk: symlist_elem(ctx, items, kk), q)
+
+
+def _b(x: bool) -> VBool:
+    return VBool(TRUE if x else FALSE)
+
+
+def python_special_items():
+    """(world, interp, [(fi, contract, label)]) for utils._has_null_base_type and utils._is_special_field."""
+    world, interp = typed_world(PY_REL)
+    P = [("obj", "Property")]
+    c_null = Contract("_has_null_base_type", [("prop", P)], lambda c, a: TRUE, lambda c, a: _SReturn(_b(null_member(c, interp, interp.getattr(c, a["prop"], "type")))), "True iff prop.type is an `or` with a direct `null` member")
+
+    def spec_special(c, a):
+        t = interp.getattr(c, a["prop"], "type")
+        k = force(c, interp.getattr(c, t, "kind")).t
+        if c.branch(Eq(k, smt.sstr("stringLiteral"))):
+            return _SReturn(_b(True))
+        return _SReturn(_b(null_member(c, interp, t)))
+
+    c_special = Contract("_is_special_field", [("prop", P)], lambda c, a: TRUE, spec_special, "True iff the property is a string literal or null-admitting (direct `null` member)")
+    out = []
+    for fn, c in (("_has_null_base_type", c_null), ("_is_special_field", c_special)):
+        fi = world.functions.get(f"{PY_REL}::{fn}")
+        if fi is not None:
+            out.append((fi, c, f"{PY_REL}::{fn}"))
+    # callers see the callee's contract
+    if f"{PY_REL}::_has_null_base_type" in world.functions:
+        world.functions[f"{PY_REL}::_has_null_base_type"].contract = c_null
+    return world, interp, out
+
+
+def items_null_contract(rel: str, fname: str):
+    """has_null_base_type(items) of the dotnet / testdata plugins: any direct `null` member in a list of types."""
+    world, interp = typed_world(rel)
+    fi = world.functions.get(f"{rel}::{fname}")
+    c = Contract(fname, [("items", [("symlist", "TypeDef")])], lambda c, a: TRUE, lambda c, a: _SReturn(_b(items_have_null(c, interp, a["items"]))), "True iff some item is the base type `null`")
+    return world, interp, fi, c, f"{rel}::{fname}"
+
+
+def rust_special_items():
+    world, interp = typed_world(RUST_REL)
+    T = [("obj", "TypeDef")]
+    c = Contract("is_special", [("type_def", T)], lambda c, a: TRUE, lambda c, a: _SReturn(_b(null_member(c, interp, a["type_def"], ("or", "tuple")))), "True iff type_def is an `or` / `tuple` with a direct `null` member")
+    out = []
+    fi = world.functions.get(f"{RUST_REL}::is_special")
+    if fi is not None:
+        out.append((fi, c, f"{RUST_REL}::is_special"))
+        fi.contract = c
+    fp = world.functions.get(f"{RUST_REL}::is_special_property")
+    if fp is not None:
+        cp = Contract("is_special_property", [("prop_def", [("obj", "Property")])], lambda c, a: TRUE, lambda c, a: _SReturn(_b(null_member(c, interp, interp.getattr(c, a["prop_def"], "type"), ("or", "tuple")))), "is_special of the property's type")
+        out.append((fp, cp, f"{RUST_REL}::is_special_property"))
+    return world, interp, out
+
+
+VALIDATOR_TOKENS = {
+    "integer": "validators.integer_validator",
+    "uinteger": "validators.uinteger_validator",
+    "string": "attrs.validators.instance_of(str)",
+    "DocumentUri": "attrs.validators.instance_of(str)",
+    "URI": "attrs.validators.instance_of(str)",
+    "boolean": "attrs.validators.instance_of(bool)",
+    "decimal": "attrs.validators.instance_of(float)",
+}
+
+
+def field_validator_report(run_label: str = f"{PY_REL}::_generate_field_validator"):
+    """Relational contract of utils._generate_field_validator: the emitted `attrs.field(...)` text names exactly the validator
+    of the base type, is optional-wrapped with default=None iff optional, and for a string literal accepts and defaults to it."""
+    world, interp = typed_world(PY_REL)
+    fi = world.functions.get(run_label)
+    if fi is None:
+        return world, None
+    names = list(VALIDATOR_TOKENS) + ["null"]
+    all_tokens = sorted(set(VALIDATOR_TOKENS.values()))
+
+    def pre(c, a):
+        k = force(c, interp.getattr(c, a["type_def"], "kind")).t
+        n = force(c, interp.getattr(c, a["type_def"], "name")).t
+        kinds = ["base", "reference", "array", "map", "and", "or", "tuple", "literal", "stringLiteral"]
+        v = force(c, interp.getattr(c, a["type_def"], "value")).t
+        return And(Or(*[Eq(k, smt.sstr(x)) for x in kinds]), smt.Implies(Eq(k, smt.sstr("base")), Or(*[Eq(n, smt.sstr(x)) for x in names])), Not(smt.Contains(v, smt.sstr("'"))))
+
+    def post(c, a, impl):
+        if impl[0] != "return":
+            return FALSE
+        r = force(c, impl[1])
+        if not isinstance(r, VStr):
+            return FALSE
+        k = force(c, interp.getattr(c, a["type_def"], "kind")).t
+        n = force(c, interp.getattr(c, a["type_def"], "name")).t
+        v = force(c, interp.getattr(c, a["type_def"], "value")).t
+        opt = interp.truth_term(c, a["optional"])
+        is_lit = Eq(k, smt.sstr("stringLiteral"))
+        lit_ok = And(smt.Contains(r.t, smt.Concat(smt.sstr("in_(['"), v, smt.sstr("'])"))), smt.Contains(r.t, smt.Concat(smt.sstr("default='"), v, smt.sstr("'"))))
+        clauses = []
+        for tok in all_tokens:
+            want = Or(*[And(Eq(k, smt.sstr("base")), Eq(n, smt.sstr(b))) for b, t in VALIDATOR_TOKENS.items() if t == tok])
+            clauses.append(Eq(smt.Contains(r.t, smt.sstr(tok)), want))
+        opt_ok = And(Eq(smt.Contains(r.t, smt.sstr("default=None")), opt), smt.Implies(smt.Contains(r.t, smt.sstr("attrs.validators.optional(")), opt))
+        has_validator = Or(*[And(Eq(k, smt.sstr("base")), Eq(n, smt.sstr(b))) for b in VALIDATOR_TOKENS])
+        wrap_ok = smt.Implies(And(opt, has_validator), smt.Contains(r.t, smt.sstr("attrs.validators.optional(")))
+        return And(smt.Contains(r.t, smt.sstr("attrs.field(")), smt.Ite(is_lit, lit_ok, And(*clauses, opt_ok, wrap_ok)))
+
+    rep = _vc.generate_post(world, interp, fi, [("type_def", [("obj", "TypeDef")]), ("optional", ["bool"])], pre, post, run_label)
+    return world, rep
